@@ -36,7 +36,7 @@ ASSUMPTIONS = ['C04.c walks dict/list/set/tuple contents, instance __dict__s, bo
 OUTSIDE = ['pre-emptive OS-thread schedules (only the sufficient condition C04.c is established)',
            'evaluate_bounded\'s interpreter-wide recursion limit (excluded by the statement)', 'histories longer than one step per engine state']
 BOUNDS = {'quick': '2 engines, state recipes 3x2x2 each, 9 operation kinds on A, B\'s query suspended after 0..2 answers; schedules of <=6 steps over 2 generators',
-          'thorough': 'schedules of <=9 steps over 3 generators; two operations on A'}
+          'thorough': 'schedules of <=9 steps over 2 generators (all goal pairs) and <=7 steps over 3 generators (6 goal triples)'}
 EXPLANATION = ('CrossHair executes an arbitrary operation on one engine while another engine (in an arbitrary small state, with a suspended '
                'query) is observed; and symbolic schedules of next() over several suspended queries; on every path the observed engine '
                'behaves as when alone and the two object graphs are disjoint; CONFIRMED = path tree exhausted')
@@ -328,7 +328,7 @@ def units(tier, seed):
                 us.append(dict(id='a.%s.B-script%d%s' % (OPS[op], sB, tag), kind='a', fixed=dict({'op': op, 'sB': sB}, **fxa), ob='C04.a',
                                timeout=300 if tier == 'quick' else 1200, weight=60,
                                bounds='operation %s on A; B has script %d; %r; all other state codes symbolic' % (OPS[op], sB, fxa)))
-    ngen, nsteps = (2, 6) if tier == 'quick' else (3, 9)
+    ngen, nsteps = (2, 6) if tier == 'quick' else (2, 9)
     for g0 in range(6):
         for g1 in range(6):
             if tier == 'quick' and (g1 < g0 or (g0 < 4 and g1 >= 4 and g0 != 0)):
@@ -336,6 +336,10 @@ def units(tier, seed):
             us.append(dict(id='b.sched.g%d-g%d' % (g0, g1), kind='b', ngen=ngen, nsteps=nsteps, fixed={'g0': g0, 'g1': g1}, ob='C04.b',
                            timeout=300 if tier == 'quick' else 2400, weight=60,
                            bounds='%d generators, schedule of %d steps, goals %d/%d of p t q u n1 n2' % (ngen, nsteps, g0, g1)))
+    if tier != 'quick':
+        for g0, g1, g2 in ((0, 1, 0), (1, 1, 2), (0, 4, 5), (4, 5, 4), (3, 0, 1), (2, 2, 2)):
+            us.append(dict(id='b.sched3.g%d-g%d-g%d' % (g0, g1, g2), kind='b', ngen=3, nsteps=7, fixed={'g0': g0, 'g1': g1, 'g2': g2}, ob='C04.b',
+                           timeout=2400, weight=400, bounds='3 generators, schedule of 7 steps, goals %d/%d/%d' % (g0, g1, g2)))
     return us
 
 
